@@ -66,6 +66,12 @@ theorem topEig_perm (π : Equiv.Perm (Fin n)) {B : Mat n n K} {V : Mat n d K} {l
     (h : IsTopEig B V lam) : IsTopEig (relabel π B) (permRows π V) lam :=
   isTopEig_relabel π h
 
+/-- the same for the methods that select the smallest eigenvalues (KLLE, KLTSA, HLLE, Laplacian eigenmaps, NPE,
+    LLTSA, LPP): `(V, λ)` bottom eigen-system of `B` ⇒ `(ΠV, λ)` bottom eigen-system of `ΠBΠᵀ` -/
+theorem bottomEig_perm (π : Equiv.Perm (Fin n)) {B : Mat n n K} {V : Mat n d K} {lam : Vec d K}
+    (h : IsBottomEig B V lam) : IsBottomEig (relabel π B) (permRows π V) lam :=
+  isBottomEig_relabel π h
+
 /-- non-vacuity: a concrete top eigen-system (B = diag(2,1), V = e₀, λ = 2) -/
 example : IsTopEig (K := ℚ) (n := 2) (d := 1) (fun i j => if i = j then (if i = 0 then 2 else 1) else 0)
     (fun i _ => if i = 0 then 1 else 0) (fun _ => 2) := by
